@@ -436,8 +436,8 @@ pub fn redim_programs() -> Vec<(Prog, String)> {
 }
 
 /// The ways control flow can go past a DIM without executing it (and, last, the baseline that executes it).
-pub const BYPASSES: [&str; 12] = ["GOTO over it", "IF branch not taken", "CASE not taken", "WHILE body never entered", "FOR body never entered", "executed",
-    "ELSEIF block not taken (the IF branch runs)", "ELSEIF block not taken (the ELSE branch runs)", "ELSE block not taken", "CASE ELSE not taken", "DO WHILE body never entered", "IF block inside a WHILE body never entered"];
+pub const BYPASSES: [&str; 13] = ["GOTO over it", "IF branch not taken", "CASE not taken", "WHILE body never entered", "FOR body never entered", "executed",
+    "ELSEIF block not taken (the IF branch runs)", "ELSEIF block not taken (the ELSE branch runs)", "ELSE block not taken", "CASE ELSE not taken", "DO WHILE body never entered", "IF block inside a WHILE body never entered", "second CASE not taken (the first runs)"];
 
 /// A declaration that control flow goes past without executing it: records and arrays with literal bounds
 /// exist all the same (they are allocated when the module or subprogram starts) and behave as declared;
@@ -506,6 +506,10 @@ pub fn bypassed_dim_programs() -> Vec<(Prog, String)> {
                     9 => {
                         let zero = b.print(vec![st("zero")]);
                         body.push(b.s(K::Select { subject: var("Z%"), cases: vec![(vec![CaseExpr::Simple(num(0))], vec![zero])], els: Some(decl) }));
+                    }
+                    12 => {
+                        let zero = b.print(vec![st("zero")]);
+                        body.push(b.s(K::Select { subject: var("Z%"), cases: vec![(vec![CaseExpr::Simple(num(0))], vec![zero]), (vec![CaseExpr::Simple(num(1))], decl)], els: None }));
                     }
                     10 => body.push(b.s(K::Do(DoKind::WhileTop, var("Z%"), decl))),
                     11 => {
